@@ -934,6 +934,8 @@ class FuncBitShiftLeft(ValueFunc):
             raise CklRuntimeError(
                 ValueString("ERROR"), "Negative shift count", pos
             )
+        if n >= 32:
+            return ValueInt(0)      # every bit is shifted out of the word
         return ValueInt((a << n) & 0xFFFFFFFF)
 
 
